@@ -364,13 +364,22 @@ func c14StaleStatus(w *World, r *Report) {
 			if nt, ok := p.Type().(*types.Named); !ok || nt.Obj().Name() != "Status" || nt.Obj().Pkg() == nil || nt.Obj().Pkg().Name() != "schema" {
 				continue
 			}
-			var derived *ssa.Phi
+			// the derivation: a phi that merges the parameter with the node's own
+			// status, or a helper of the package that is handed the parameter and
+			// returns a status
+			var derived ssa.Instruction
+			derivedName := ""
 			for _, ref := range *p.Referrers() {
 				if phi, ok := ref.(*ssa.Phi); ok {
 					for _, e := range phi.Edges {
 						if e != ssa.Value(p) {
-							derived = phi
+							derived, derivedName = phi, phi.Comment
 						}
+					}
+				}
+				if c, ok := ref.(*ssa.Call); ok && derived == nil {
+					if g := c.Call.StaticCallee(); g != nil && g.Pkg == sp && g.Signature.Results().Len() == 1 && types.Identical(g.Signature.Results().At(0).Type(), p.Type()) {
+						derived, derivedName = c, g.Name()+"(…)"
 					}
 				}
 			}
@@ -382,7 +391,11 @@ func c14StaleStatus(w *World, r *Report) {
 			for _, ref := range *p.Referrers() {
 				switch x := ref.(type) {
 				case *ssa.Phi:
-					if x == derived {
+					if ssa.Instruction(x) == derived {
+						continue
+					}
+				case *ssa.Call:
+					if ssa.Instruction(x) == derived {
 						continue
 					}
 				case *ssa.DebugRef:
@@ -396,7 +409,7 @@ func c14StaleStatus(w *World, r *Report) {
 			}
 			what := funcKey(f) + ": " + p.Name() + " after the node's own status is known"
 			if len(stale) == 0 {
-				r.OK("R14.7", what, derived.Pos(), "only the derived status `"+derived.Comment+"` is used below")
+				r.OK("R14.7", what, derived.Pos(), "only the derived status `"+derivedName+"` is used below")
 			} else {
 				r.Fail("R14.7", what, stale[0].Pos(), "the inherited status parameter is still used in `"+stale[0].String()+"` although the node's own status overrides it: a status written on this node does not reach what lies beneath it")
 			}
